@@ -16,6 +16,23 @@ def run(chk):
         for layout in ("lines", "files", "oneline", "longname"):
             total += macro.replay(chk, th, fam, macros, cases, "c10:" + layout, layout=layout)
         chk.add("rewriting_paths", len(cases))
+    # a long path (one expansion per pass, 300 passes): temporaries of passes that lie more than 256 apart are distinct too
+    from common import run_th
+    import lexinc
+    n = 300
+    src = "DEFINE x <ID> AS #0 := $0 END DEFINE\n" + " ;\n".join(["x a"] * n) + "\n"
+    recs, rc, err = run_th(th, ["macro"], [{"i": 0, "files": {"m": src}, "main": "m", "passes": [1024]}], timeout=600)
+    r = next((x for x in recs if "runs" in x), None)
+    if r is None:
+        chk.violation("c10:long:abort", "apply_macros did not return on %d sequential uses of a macro with a temporary (exit %s)" % (n, rc), {"source": src})
+    else:
+        toks = macro.norm_real(r["runs"][0]["toks"])
+        temps = [t for k, t in toks if k == lexinc.KIND["ID"] and t != "a"]
+        if len(temps) != n or len(set(temps)) != n or r["runs"][0]["errs"]:
+            chk.violation("c10:long", "%d sequential uses of 'x <ID> AS #0 := $0' (one expansion step each): %d temporaries, %d distinct, errors %s - "
+                          "every expansion step must own its temporary" % (n, len(temps), len(set(temps)), r["runs"][0]["errs"]),
+                          {"source": src, "temporaries": temps[:6] + temps[-3:]})
+        total += 1
     # end to end: nested / repeated uses of the IF-THEN-ELSE and REPEAT macros must not interfere (values compared with TheoSem)
     progs = sem.generate(chk.seed + 100, 2500 if chk.thorough else 400, canon=False, profile="macroheavy")
     sem.run_real(chk, th, progs)
@@ -27,6 +44,6 @@ def run(chk):
                        "inside its own <P> slot and twice in a sequence) and 'temps2' (two macros of equal priority with the same temporary "
                        "numbers) over all streams of <= 5 (thorough 6) tokens is replayed with budgets 1..4 in four layouts (one definition per "
                        "line, one file per macro with equal line numbers, all definitions on one line, a 77-character file name); the map real "
-                       "spelling -> specification name must be a bijection on every path and no spelling may be a legal identifier; "
+                       "spelling -> specification name must be a bijection on every path and no spelling may be a legal identifier; 300 sequential uses (passes more than 256 apart) own 300 distinct temporaries; "
                        "macro-heavy generated programs (nested IF-THEN-ELSE / REPEAT) end to end through TheoSem")
     log("C10: %d stream/budget cases compared, %d end-to-end programs accepted" % (total, acc))
